@@ -17,6 +17,7 @@
 (*   typed    {id, t, ins, out}       declared inputs/output of a lazily   *)
 (*                                    built term equal the typing rules    *)
 (*   sample   {id, f, vars, sample_inputs, result}   relational sampling   *)
+(*   mc       {id, f, g, vars, sample_inputs, result} Monte Carlo integral  *)
 (***************************************************************************)
 EXTENDS Sem, Json, IOUtils, TLCExt
 
@@ -110,8 +111,43 @@ JudgeSample(e) ==
                        want |-> Eval(massF, ems[k]), got |-> Eval(massR, ems[k])])
              ELSE Out([id |-> e.id, ok |-> TRUE, points |-> Len(es)])
 
+\* mc {id, f, g, vars, sample_inputs, result}: Integrate(f, g, vars) under the MonteCarlo
+\* interpretation.  Whatever was drawn, at every batch element and particle the result must be
+\* mass(f) * g(x) for SOME point x of the support of f (the draw is not constrained), it has
+\* exactly the inputs of f and g outside vars plus the sample inputs, and g's output.
+JudgeMC(e) ==
+  LET a == Ann(e.f)
+      r == Ann(e.result)
+      vs == e.vars
+      massF == [c |-> "Un", op |-> [n |-> "exp", p |-> <<>>],
+                arg |-> [c |-> "Red", op |-> "logaddexp", arg |-> e.f, vars |-> vs]]
+      w == Ann([c |-> "Bin", op |-> [n |-> "mul", p |-> <<>>], l |-> massF, r |-> e.g])
+      xs == EnvSeq(vs)
+      allowed == [x \in 1..Len(w.ti) |-> w.ti[x]] \o e.sample_inputs
+      es == EnvSeq(r.ti)
+      okAt(k) == LET got == Eval(r, es[k])
+                     cands == {j \in 1..Len(xs) : Eval(a, Override(es[k], xs[j])) # Scalar(NegInf)}
+                 IN HasU(got)
+                    \/ (cands = {} /\ got = Scalar(Zero))      \* empty support: mass 0
+                    \/ \E j \in cands : LET v == Eval(w, Override(es[k], xs[j])) IN HasU(v) \/ v = got
+      bad == {k \in 1..Len(es) : ~okAt(k)}
+  IN IF (\E k1 \in 1..Len(r.ti) : ~(\E q \in 1..Len(allowed) : allowed[q] = r.ti[k1]))
+        \/ (\E k2 \in 1..Len(r.ti) : \E q \in 1..Len(vs) : vs[q][1] = r.ti[k2][1])
+        \/ (\E q \in 1..Len(allowed) :
+               (\A q2 \in 1..Len(vs) : vs[q2][1] # allowed[q][1])
+               /\ ~(\E k3 \in 1..Len(r.ti) : r.ti[k3] = allowed[q]))
+     THEN Out([id |-> e.id, ok |-> FALSE, clause |-> "mc_inputs", got |-> r.ti])
+     ELSE IF r.to # Ann(e.g).to
+     THEN Out([id |-> e.id, ok |-> FALSE, clause |-> "mc_output", got |-> r.to])
+     ELSE IF bad # {}
+     THEN LET kb == CHOOSE kk \in bad : TRUE IN
+          Out([id |-> e.id, ok |-> FALSE, clause |-> "mc_value_not_mass_times_integrand_at_a_support_point",
+               env |-> [n \in DOMAIN es[kb] |-> es[kb][n]], got |-> Eval(r, es[kb])])
+     ELSE Out([id |-> e.id, ok |-> TRUE, points |-> Len(es)])
+
 Judge(e) ==
   CASE e.kind = "deneq" -> JudgeDenEq(e)
+    [] e.kind = "mc" -> JudgeMC(e)
     [] e.kind = "sample" -> JudgeSample(e)
     [] e.kind = "typed" -> JudgeTyped(e)
     [] e.kind = "project" -> JudgeProject(e)
